@@ -538,6 +538,15 @@ impl<'t> W<'t> {
                 self.emit(format!("OPEN {} FOR RANDOM AS #{} LEN = {}", f, h, rl));
                 self.emit(format!("FIELD #{}, 8 AS FA$, 8 AS FB$", h));
                 self.used("FIELD");
+                // (the FIELD list may be wider than the record: LEN = 8 or 0) a record is read or written right away
+                match self.t.choose(4) {
+                    1 => self.emit(format!("GET #{}, 1", h)),
+                    2 => {
+                        self.emit("LSET FB$ = \"q\"".to_string());
+                        self.emit(format!("PUT #{}, 1", h));
+                    }
+                    _ => {}
+                }
             }
             3 | 4 => {
                 self.used("PRINT #");
